@@ -86,6 +86,36 @@ func lensAround(ns ...int) []string {
 	return out
 }
 
+// floatVals: strconv.ParseFloat(_, 32) syntax classes (special values, sign, dot, exponent, hex
+// mantissa with mandatory p exponent, underscores, leading zeros, long mantissas) and the float32
+// overflow boundary 2^128 - 2^103 from both sides, in decimal and in hex.
+var floatVals = []string{"1.5", "-2", "1e3", "nan", "inf", "1e400", "abc", ".5", "5.", "0x1p-2", "1_0.0", "1e39", "+Inf",
+	"NaN", "-nan", "+nan", "infinity", "INFINITY", "-Infinity", "infin", "infinit", "infinityx", "in", "i", "n", "na", "nanx",
+	"", "+", "-", ".", "e5", "1e", "1e+", "1e-", "1e+5", "1E5", "1e5x", "+.5e-3", "-.e1", "1..2", "1.2.3", "1e1.5",
+	"0x1", "0x", "0x.p1", "0x1P+1", "0X1.8p1", "0x1.8", "0xap0", "0xgp0", "0x1pa", "0x1p", "0x1p+", "0x.8p1", "0x1.p0",
+	"1_000.5", "1__0", "_1", "1_", "1_.5", "1._5", "1e1_0", "1e_1", "1e1_", "0x_1p0", "0x1_p0", "0_1", "0b1", "0b_1", "0o_7",
+	"1e-400", "0e9999999", "1e99999999999", "1e-99999999999", "0.000000000000000000000000000000000000000000000001",
+	"00000000000000000000001", "100000000000000000000000000000000000000", "1000000000000000000000000000000000000000",
+	"340282346638528859811704183484516925440", "340282356779733661637539395458142568447",
+	"340282356779733661637539395458142568448", "340282356779733661637539395458142568447.9", "340282356779733661637539395458142568449",
+	"3.40282356779733661637539395458142568447e38", "3.40282356779733661637539395458142568448e38", "3.4028235e38", "3.4028236e38",
+	"34028235677973366163753939545814256844800000e-5", "-340282356779733661637539395458142568448",
+	"0x1.fffffep127", "0x1.ffffffp127", "0x1.fffffefp127", "0x1.fffffeffffffffffffffp127", "0x1.ffffff0000000000000001p127",
+	"0x1p128", "0x1p127", "0x.ffffffp128", "0x.fffffefp128", "0x1p-200", "0x0p99999", "0x1p99999", "-0x1.ffffffp127",
+	"1e38", "9e38", "0.1e40", "0.01e41", "12345678901234567890123456789e10", "12345678901234567890123456789e9", "٣", "1ÿ"}
+
+// guidVals: google/uuid Parse by length class (36, 45 with urn prefix, 38 with two unchecked
+// bytes around, 32 hex) and the ways each can fail.
+var guidVals = []string{"123e4567-e89b-12d3-a456-426614174000", "{123e4567-e89b-12d3-a456-426614174000}",
+	"urn:uuid:123e4567-e89b-12d3-a456-426614174000", "123e4567e89b12d3a456426614174000", "not-a-guid",
+	"123E4567-E89B-12D3-A456-426614174000", "123e4567-e89b-12d3-a456-42661417400",
+	"x123e4567-e89b-12d3-a456-426614174000y", "{123e4567-e89b-12d3-a456-42661417400g}", "URN:UUID:123e4567-e89b-12d3-a456-426614174000",
+	"Urn:Uuid:123E4567-e89b-12d3-a456-426614174000", "urn:uuix:123e4567-e89b-12d3-a456-426614174000",
+	"urn:uuid:123e4567-e89b-12d3-a456-42661417400g", "123E4567E89B12D3A456426614174000", "123e4567e89b12d3a45642661417400g",
+	"123e4567-e89b-12d3-a456_426614174000", "123e4567ae89b-12d3-a456-426614174000", "123e4567-e89b-12d3-a456-4266141740000",
+	"123e4567-e89b-12d3-a456-4266 4174000", "123e4567e89b12d3a4564266141740001", "é23e4567-e89b-12d3-a456-42661417400",
+	"00000000-0000-0000-0000-000000000000", "ffffffff-ffff-ffff-ffff-ffffffffffff", "gfffffff-ffff-ffff-ffff-ffffffffffff"}
+
 // genConstraint returns one constraint entry text and values on / off its boundary.
 func genConstraint(r *gen.Rand) consGen {
 	n := gen.Pick(r, []int{0, 1, 2, 3, 5, 10})
@@ -98,13 +128,11 @@ func genConstraint(r *gen.Rand) consGen {
 	case 2:
 		return consGen{"bool", []string{"true", "false", "1", "0", "t", "F", "TRUE", "True", "tRue", "yes", "2", "T", "f"}}
 	case 3:
-		return consGen{"float", []string{"1.5", "-2", "1e3", "nan", "inf", "1e400", "abc", ".5", "5.", "0x1p-2", "1_0.0", "1e39", "+Inf"}}
+		return consGen{"float", floatVals}
 	case 4:
 		return consGen{"alpha", []string{"abc", "ABC", "aBc", "ab1", "a_b", "é", "ñandú", "a b", "z", "\xff", "aé1"}}
 	case 5:
-		return consGen{"guid", []string{"123e4567-e89b-12d3-a456-426614174000", "{123e4567-e89b-12d3-a456-426614174000}",
-			"urn:uuid:123e4567-e89b-12d3-a456-426614174000", "123e4567e89b12d3a456426614174000", "not-a-guid",
-			"123E4567-E89B-12D3-A456-426614174000", "123e4567-e89b-12d3-a456-42661417400"}}
+		return consGen{"guid", guidVals}
 	case 6:
 		return consGen{gen.Pick(r, []string{"minLen", "minlen"}) + "(" + ns + ")", lensAround(n)}
 	case 7:
